@@ -100,8 +100,37 @@ class Theory:
             z3.ForAll([s, t], self.length(self.app(s, t)) == self.length(s) + self.length(t),
                       patterns=[self.length(self.app(s, t))]),
         ]
+        u = z3.Const('u', VL)
+        self.base_lemmas.append(z3.ForAll([s, t, u], self.app(self.app(s, t), u) == self.app(s, self.app(t, u)),
+                                          patterns=[self.app(self.app(s, t), u)]))
         self.lemmas = list(self.base_lemmas)
         self.ground_axioms = None
+
+    def base_lemma_proofs(self):
+        """structural induction proofs of the list lemmas every theory uses"""
+        from .core import _mk_solver, P_BIG
+        VL = self.VL
+        b, c = z3.Consts('ind!b ind!c', VL)
+        x, r = z3.Const('ind!x', self.V), z3.Const('ind!r', VL)
+        stmts = {
+            'length(s) >= 0': lambda a: self.length(a) >= 0,
+            'app(s, nil) == s': lambda a: self.app(a, VL.nil) == a,
+            'length(app(s,t)) == length(s)+length(t)': lambda a: self.length(self.app(a, b)) == self.length(a) + self.length(b),
+            'app(app(s,t),u) == app(s,app(t,u))': lambda a: self.app(self.app(a, b), c) == self.app(a, self.app(b, c)),
+        }
+        out = []
+        for name, stmt in stmts.items():
+            def thunk(stmt=stmt):
+                res = []
+                for tag, hyps, goal in (('base', [], stmt(VL.nil)), ('step', [stmt(r)], stmt(VL.cons(x, r)))):
+                    s = _mk_solver(P_BIG)
+                    for h in hyps:
+                        s.add(h)
+                    s.add(z3.Not(goal))
+                    res.append((tag, str(s.check())))
+                return res
+            out.append(('list lemma: ' + name, thunk))
+        return out
 
     # element equality used by `in`, index, count; a theory may override (default: structural)
     def veq(self, a, b):
